@@ -63,6 +63,14 @@ func main() {
 				for _, pp := range runEncoder(p, fn) {
 					fmt.Println("  path:", pathLabel(pp), " env:", pp.env.String())
 					fmt.Println("    ret:", dumpAV(pp.ret, pp, 0))
+					if sl, ok := pp.ret.(avSlice); ok {
+						li := &layoutInterp{p: p}
+						if bs, ok := li.sliceBytes(pp, sl); ok {
+							for i, b := range bs {
+								fmt.Printf("    byte %d: %s\n", i, b)
+							}
+						}
+					}
 					for _, n := range pp.notes {
 						fmt.Println("    note:", n)
 					}
